@@ -2,7 +2,7 @@
 from common import *  # noqa
 import dbtie
 
-PROFILE = {'p_write': 0.35, 'getter_bias': 0.8}
+PROFILE = {'scenario_pref': ['getter_memo', 'carriers', 'handle_times'], 'p_write': 0.35, 'getter_bias': 0.8}
 
 
 def main(tier, seed):
